@@ -95,6 +95,8 @@ func main() {
 		runC09(*seed, *n, *long)
 	case "c20":
 		runC20(*seed, *n, *long)
+	case "c10":
+		runC10Boundary(*seed, *n)
 	default:
 		fmt.Fprintln(os.Stderr, "unknown mode")
 		os.Exit(2)
